@@ -362,7 +362,7 @@ def check_C18(chk, tier):
         for r, (nm, srcs) in C18_ROUTINES.items():
             if tier == "quick" and prec != "d" and r not in (1, 2, 3): continue     # quick: the three drivers in every precision, the other routines in double
             src = [E1H + "h18.c", REPO + "/SRC/util.c", REPO + "/SRC/" + mach] + [REPO + "/SRC/" + s_.format(p=prec) for s_ in srcs]
-            hs.append(e1.Harness("c18_%s_%s" % (prec, nm), src, defs=["-DPREC_" + prec.upper(), "-DROUTINE=%d" % r], unwind=3, unwindset={"same_bytes.0": 50}, timeout=900))
+            hs.append(e1.Harness("c18_%s_%s" % (prec, nm), src, defs=["-DPREC_" + prec.upper(), "-DROUTINE=%d" % r], unwind=3, unwindset={"same_bytes.0": 100}, timeout=900))
     e1.run_harnesses(chk, hs, "C18 argument screening", "n <= 2, nrhs <= 2, lda <= 3, every enum/tag/dimension/lwork/equed/scale-factor corruption; unwind 3 (all loops bounded by n <= 2)")
 
 
@@ -637,6 +637,9 @@ def check_C12(chk, tier):
         for pat in (C.all_patterns(2, 2) if not cplx else [15, 7]): cs.append(xcase(2, pat, growth=1, umode=0 if cplx else 1, symcols=-1 if not cplx else 0))      # singular and nonsingular growth, symbolic
         if not cplx:
             for pat in (511, C.band(3, 1, 1), 0b011011011, 0b111000111): cs.append(xcase(3, pat, growth=1, symcols=4, tune="t212"))
+            # breakdown in a column that is not the last of its supernode (relaxed supernode of 3): only the leading info columns may enter the growth factor
+            for pat in (511, 0b111111011): cs.append(xcase(3, pat, growth=1, symcols=2, tune="t133")); cs.append(xcase(3, pat, growth=1, symcols=6, tune="t1nn_f1", storage=1, trans=2))
+            cs.append(xcase(4, C.dense(4, 4), growth=1, symcols=2, tune="t1nn_f1")); cs.append(xcase(4, C.dense(4, 4), growth=1, symcols=4 + 8, tune="t1_8_8"))
         if not q and not cplx:
             for pat in C.all_patterns(2, 2): cs.append(xcase(2, pat, cond=1, growth=1)); cs.append(xcase(2, pat, cond=1, storage=1, trans=2, symcols=1))
         run_phase(chk, "gscon+growth via gssvx/" + prec, H + "h_gssvx.c", list(dict.fromkeys(cs)), ["C12."], prec=prec, budget_s=200 if q else 1500, validate_samples=0,
@@ -660,6 +663,10 @@ def check_C13(chk, tier):
                 for tc in (0, 1, 2):
                     cs.append((n, hex(pat)) + tuple(T["t122"]) + (tc, 1, 0, 0, 0))
                     if n >= 2: cs.append((n, hex(pat)) + tuple(T["t212"]) + (tc, 3, 0, 2, 1)); cs.append((n, hex(pat)) + tuple(T["t212"]) + (tc, 2, 1, 0, 1))
+        # factors of a nearby matrix (slow, geometric convergence in exact arithmetic): the stopping rule runs into its cap; concrete B and X = 0 (single path)
+        for n, pat, tn in ((2, 15, "t122"), (3, 511, "t212"), (3, C.band(3, 1, 1), "t111"), (5, C.dense(5, 5), "tn1n")) if not cplx else ((2, 15, "t122"), (3, 511, "t212")):
+            for tc in (0, 1, 2):
+                for nr, lb, lx in ((1, 0, 0), (2, 1, 0), (3, 0, 2)): cs.append((n, hex(pat)) + tuple(T[tn]) + (tc, nr, lb, lx, 2, 1))
         run_phase(chk, "gsrfs-direct/" + prec, H + "h_gsrfs.c", list(dict.fromkeys(cs)), ["C13."], prec=prec, budget_s=100 if q else 1500, validate_samples=0, path_timeout=30 if q else 600,
                   bounds="n<=3 generic concrete A, all Trans, nrhs<=3 with ldx != ldb, symbolic arbitrary X (all columns or one column) and B", qtimeout_ms=5000 if q else 60000, env=CPLX_ENV if cplx else None)
     xc = [xcase(n, pat, storage=st, trans=tr, equil=eq, refine=0, symcols=sc) for n, pat, sc in ((1, 1, -1), (2, 15, 2)) for st in (0, 1) for tr in (1, 2) for eq in (0, 1)]
